@@ -12,12 +12,12 @@ CHECKS = {
     "C02": ("exploration", "6/C02", "runtime monitor: constructor-path builder + exact normal-form oracle + re-parse stability",
             "Objects built through the generated constructors from metamodel-valid derivations; serialised output compared for exact equality with the normal form; second parse/serialise compared with the first.",
             "trusted: snake_case rule and normal form of vf/gen.py; decimals passed as floats"),
-    "C03": ("exploration", "6/C03", "runtime monitor: well-typedness walk over the object graph returned by structure + quiescent-point invariant on resolved annotations",
+    "C03": ("exploration", "6/C03", "runtime monitor: well-typedness walk over the object graph returned by structure + quiescent-point invariant on resolved annotations + one user-subclass request per structure (result must be of the requested subclass)",
             "Every attribute at every depth of every structured result is checked against the declared metamodel type, independent of JSON equality.",
             "trusted: WT relation of vf/pyside.py"),
     "C09": ("exploration", "6/C09", "exhaustive runtime inspection of the live catalogue/registry + behavioural round-trip through catalogue entries",
             "Exhaustive over 95 methods x 6 facets and all registry names of the imported package.", "trusted: constant naming rule"),
-    "C10": ("exploration", "6/C10", "runtime monitor: per-attribute toggle (set/unset/absent) on constructor and parse path against the metamodel's rule table",
+    "C10": ("exploration", "6/C10", "runtime monitor: per-attribute toggle (set/unset/absent) on constructor and parse path against the metamodel's rule table (structures, request/response/notification envelopes, and-types and the JSON-RPC error envelope)",
             "Exhaustive over attributes; sampled surroundings.", "trusted: null-admission definition 3.2"),
     "C12": ("exploration", "6/C12", "icontract postconditions on the real validator functions + boundary/random probes at constructor and converter entry points",
             "All directly integer-typed sites x boundary set x random ints at both entry points; validator functions over plain Python values.", "objects with raising __str__/__le__ out of scope"),
@@ -37,17 +37,17 @@ CHECKS = {
             "Exhaustive over generated .cs files at text level.", "no .NET toolchain offline: trusted base includes my reading of Newtonsoft attribute semantics"),
     "C11": ("exploration", "6/C11", "runtime monitor: single-field mutations of generated valid values through the real converter; oracle preconditions (a)-(c)",
             "Every eligible site of sampled values of every structure x four edits.", "any exception counts as rejection"),
-    "C15": ("exploration", "6/C15", "runtime monitor: fresh-key injection at protocol-object nodes, attrs-equality and re-serialisation compared with the base run",
+    "C15": ("exploration", "6/C15", "runtime monitor: fresh-key and look-alike-key injection at protocol-object nodes (incl. property-less structures; payloads up to 700 levels deep), warnings, attrs-equality and re-serialisation compared with the base run",
             "Sampled bases x one/several/all nodes.", "fresh = declared by no structure"),
-    "C16": ("exploration", "6/C16", "real generator processes under fs/uuid tap across hash seeds, on-disk run histories (re-run, other model, stale files incl. custom-class names), in-process histories (same-shape model, other model, then the model under test), a model with colliding anonymous literals and keyword classes in two processes; owned-file hash comparison; uuid4 taint scan",
+    "C16": ("exploration", "6/C16", "real generator processes under fs/uuid tap across hash seeds (one and three --model files), python -O, on-disk run histories (re-run, other model, stale files incl. custom-class names), in-process histories (same-shape model, other model, then the model under test), a model with colliding anonymous literals and keyword classes in two processes; owned-file hash comparison; uuid4 taint scan",
             "4 plugins x configurations x histories.", "files a plugin does not own are not judged"),
     "C17": ("exploration", "6/C17", "all vectors of the real testdata plugin (writes captured in memory) judged by the independent strict validity oracle; True vectors through the real converter",
             "Exhaustive over all 73,988 vectors and 164 message classes.", "envelope model DESIGN 3.4"),
-    "C18": ("fault_enumeration", "6/C18", "read-back/merge/aliasing/equality monitors on the real loader (incl. edits inside type expressions) + schema-violating single edits x 4 plugins as real processes under the fs tap and plugin-entry probe, with 1-3 model files and an in-process good-then-bad history",
+    "C18": ("fault_enumeration", "6/C18", "read-back/merge/aliasing/equality monitors on the real loader (incl. edits inside type expressions, array-form params, parent moves) + schema-violating single edits x 4 plugins as real processes under the fs tap and plugin-entry probe, with 1-3 model files and an in-process good-then-bad history",
             "Fault enumeration of schema-violating edits x plugins; lossless/equality by exhaustive node-pair comparison on several documents.", "schema violation judged against #/definitions/MetaModel"),
     "C19": ("exploration", "6/C19", "creation histories over 7 configurations, each live converter compared with a first-created converter of its own configuration from a fresh process (battery incl. forced union shapes) + fresh-process schedule trials with barrier, switch interval 1e-6 and seeded sys.monitoring LINE yield injection; distinct interleavings counted; shared-converter concurrent first use",
             "All histories up to length k; hundreds of injected schedules; held on what was observed.", "yield at statement start manufactures no impossible interleaving"),
-    "C20": ("exploration", "6/C20", "icontract postconditions on Position.__eq__/__gt__ + exhaustive boundary grid and random pairs against tuple order",
+    "C20": ("exploration", "6/C20", "icontract postconditions on Position.__eq__/__gt__ + exhaustive boundary grid and random pairs against tuple order + subclass instances (with and without extra fields), in-place mutation histories, -O/-OO probe processes",
             "Grid exhaustive (1296 pairs) + random pairs; Range/Location structural equality; unrelated-object probes; reprs.", "tuple order is the reference"),
 }
 
